@@ -20,6 +20,11 @@ CHECKS["C07"] = ("DESIGN §4 C07",
     "complete enumeration of the finite rule tables and of a bounded mesh/map alphabet on the implementation; linearity in the integrand reduces 'all polynomials' to the monomial basis",
     "trusted: fractions for reference-element integrals, numpy leggauss + Duffy collapse for mesh-level reference integrals, numpy eigvalsh for rank; tolerance 1e-13 (rules), 1e-11 (meshes)")
 
+CHECKS["C05"] = ("DESIGN §4 C05",
+    "explicit-state exploration (BFS over letter sequences (algo, params, dt), depth 2 quick / 3 thorough, states = (u,v,a) merged by fingerprint) of the real time-stepping code, every basis prior state at depth 1, against the documented scheme definitions as dense reference model",
+    "every letter sequence up to the depth bound is executed on the real simulation and every step is checked against the documented update relations, the discrete equation on free dofs, the constraint values, the K/C/M weights as exact difference quotients, the Newton (residual) path, and the energy statements; one step is affine in (u_n,v_n,a_n,F) so the basis decides all prior states",
+    "trusted: numpy dense algebra; the load is taken constant within a step; tolerances 1e-9/1e-10 relative")
+
 PENDING_REASON = "not claimed yet: the bounded-exhaustive check for this property is designed (DESIGN.md §4) but not built in the committed tree"
 
 
